@@ -414,6 +414,24 @@ class TapeCriteria:
         raise NotImplementedError
 
 
+def file_argument(role, fs, files, disk, atoms):
+    """What the user hands to logfile= / trajectory= / restart_file=: a path, an open file object, or a ready-made
+    observer (Logger / TrajectoryObserver; a RestartObserver needs the simulation and is assigned afterwards)."""
+    if fs.get("as") == "path":
+        return "/simfs/" + fs["name"]
+    f = disk.open(fs["name"], fs.get("mode", "a"))
+    if fs.get("as") == "observer" and role != "restart_file":
+        interval = files.get("logging_interval", 1)
+        if role == "logfile":
+            from quansino.io.logger import Logger
+
+            return Logger(logfile=f, interval=interval, mode=fs.get("mode", "a"))
+        from quansino.io.trajectory import TrajectoryObserver
+
+        return TrajectoryObserver(atoms=atoms, file=f, interval=interval, mode=fs.get("mode", "a"))
+    return f
+
+
 def _seed_value(sc):
     """The seed as the user hands it over: a Python int or a numpy integer scalar (seeds drawn with
     Generator.integers / taken from an array are numpy integers)."""
@@ -480,8 +498,21 @@ class World:
         sc = self.sc
         self.atoms = build_atoms(sc["atoms"])
         self.calc_spec = sc["calc"]
-        self.calc = calcs.make_calc(self.calc_spec)
+        # a calculator object the user already holds (shared between simulations), or a new one
+        self.calc = self.opts.get("calc_object") or calcs.make_calc(self.calc_spec)
         self.atoms.calc = self.calc
+        if sc.get("calc_used_before") and len(self.atoms):
+            # the calculator has already evaluated ANOTHER geometry of these atoms (the user relaxed or inspected the
+            # structure, then distorted it): its cache describes a configuration the simulation never sees
+            saved = self.atoms.positions.copy()
+            self.atoms.positions = saved + 0.173
+            try:
+                self.atoms.get_potential_energy()
+                self.atoms.get_forces()
+            except Exception:  # noqa: BLE001 - duck-typed calculators without forces
+                pass
+            self.atoms.positions = saved
+            self.result.count("fault.calculator_used_before")
         cls = driver_class(sc["driver"])
         p = dict(sc.get("params", {}))
         kw = {}
@@ -501,11 +532,7 @@ class World:
         if self.disk is not None:
             for role in ("logfile", "trajectory", "restart_file"):
                 if role in files:
-                    fs = files[role]
-                    if fs.get("as") == "path":
-                        kw[role] = "/simfs/" + fs["name"]
-                    else:
-                        kw[role] = self.disk.open(fs["name"], fs.get("mode", "a"))
+                    kw[role] = file_argument(role, files[role], files, self.disk, self.atoms)
             if "logging_interval" in files:
                 kw["logging_interval"] = files["logging_interval"]
             if "logging_mode" in files:
@@ -1023,7 +1050,12 @@ class ForcesCalc(calcs.CachingCalc):
         if self.prescribed is not None:
             self.results["forces"] = self.prescribed.copy()
         if self.committee:
-            for k, v in self.committee.items():
+            com = self.committee
+            if "sequence" in com:
+                # the committee's spread changes from one evaluation to the next (as it does along a real trajectory)
+                self._ncommittee = getattr(self, "_ncommittee", -1) + 1
+                com = com["sequence"][self._ncommittee % len(com["sequence"])]
+            for k, v in com.items():
                 self.results[k] = np.array(v, dtype=float)
 
 
@@ -1056,8 +1088,7 @@ class FBWorld:
         if disk is not None:
             for role in ("logfile", "trajectory", "restart_file"):
                 if role in files:
-                    fs = files[role]
-                    kw[role] = "/simfs/" + fs["name"] if fs.get("as") == "path" else disk.open(fs["name"], fs.get("mode", "a"))
+                    kw[role] = file_argument(role, files[role], files, disk, self.atoms)
             for k in ("logging_interval", "logging_mode"):
                 if k in files:
                     kw[k] = files[k]
